@@ -1552,7 +1552,13 @@ void OPNMIDIplay::killSustainingNotes(int32_t midCh, int32_t this_adlchn, uint32
                     hooks.onNote(hooks.onNote_userData, static_cast<int>(c), jd.loc.note, midiins, 0, 0.0);
                 jd.sustained &= ~sustain_type;
                 if(jd.sustained == OpnChannel::LocationData::Sustain_None)
-                    m_chipChannels[c].users.erase(j);//Remove only when note is clean from any holders
+                {
+                    // A sostenuto mark is put on keys that are still held down: such a
+                    // note stays in use by its active note after the hold is lifted
+                    MIDIchannel::notes_iterator k = m_midiChannels[jd.loc.MidCh].find_activenote(jd.loc.note);
+                    if(k.is_end() || !k->value.phys_find(c))
+                        m_chipChannels[c].users.erase(j);//Remove only when note is clean from any holders
+                }
             }
         }
 
